@@ -208,7 +208,7 @@ def add_guards(res, gs, prop):
             k = (sig, f["edge"]["op"], json.dumps(f["edge"]["pre"]))
             if k in seen: continue
             seen.add(k)
-            res.violation(sig, "%s when opcode 0x%02x (enabled by the implementation, not by the model) is forced in state %s [%s]" % (
+            res.violation(sig, "%s when opcode 0x%02x is forced from the constructed abstract state %s [%s]" % (
                 f["why"], f["edge"]["op"], json.dumps(f["edge"]["pre"]), f["config"]),
                 {"stage": "edges", "edge": f["edge"], "property": prop, "reason": f["why"]})
     for dr in gs["drift"][:5]:
